@@ -277,7 +277,7 @@ func c03Run(c *core.Ctx) *core.Result {
 		r.Count("prior_dirs_announced_as_symlink_or_fifo", 1)
 	}
 	// one mutation
-	mut := core.Pick(R, []string{"none", "none", "dotdot", "dot", "empty", "updown", "dotdotx", "abs", "unclean", "dup", "order", "childofnondir", "noparent", "hl-unknown", "hl-later", "hl-escape", "hl-nonfile", "data-unsolicited", "data-afterterm", "backslash", "newline", "hugesize", "fin-early", "stat-after-end", "err-packet", "req-from-sender", "hl-via-dest-symlink", "hl-via-dest-symlink", "tmp-name-planted", "random-script", "random-script", "deep-revisit", "deep-revisit", "listing-dir-child", "hl-shared-inode", "hybrid-mode", "hybrid-mode"})
+	mut := core.Pick(R, []string{"none", "none", "dotdot", "dot", "empty", "updown", "dotdotx", "abs", "unclean", "dup", "order", "childofnondir", "noparent", "hl-unknown", "hl-later", "hl-escape", "hl-nonfile", "data-unsolicited", "data-afterterm", "backslash", "newline", "hugesize", "fin-early", "stat-after-end", "err-packet", "req-from-sender", "hl-via-dest-symlink", "hl-via-dest-symlink", "tmp-name-planted", "random-script", "random-script", "deep-revisit", "deep-revisit", "listing-dir-child", "hl-shared-inode", "hybrid-mode", "hybrid-mode", "filter-skipped-dir", "filter-skipped-dir"})
 	k := 0
 	if len(stats) > 0 {
 		k = R.Intn(len(stats) + 1)
@@ -312,6 +312,7 @@ func c03Run(c *core.Ctx) *core.Result {
 	}
 	var unsolicited []hpkt
 	var tmpSeed uint32
+	rejectBase := ""
 	forceMeta := false
 	hlSrc, hlDst := "", ""
 	var hlSkip []string
@@ -609,6 +610,32 @@ func c03Run(c *core.Ctx) *core.Result {
 				stats[i-1], stats[i] = stats[i], stats[i-1]
 			}
 		}
+	case "filter-skipped-dir":
+		// the receiver's Filter leaves out entries of one base name; the peer
+		// announces a directory of that name with children where the
+		// destination has a symlink that leads out of dest
+		nm := core.Pick(R, []string{"e", "a0", "hz"})
+		rejectBase = nm
+		tg := core.Pick(R, []string{outside + "/dir", outside + "/dir/sub", outside, "../../../outside/dir", up + rc + "/outside/dir", caseDir + "/work/p"})
+		os.Symlink(tg, filepath.Join(dest, nm))
+		add := []*types.Stat{dirStat(nm), fileStat(nm + "/a"), fileStat(nm + "/planted"), dirStat(nm + "/sub"), fileStat(nm + "/sub/a"),
+			{Path: nm + "/top", Mode: uint32(os.ModeSymlink | 0777), Linkname: "x"}}
+		if R.P(1, 2) {
+			// the skipped name one level down
+			add = []*types.Stat{dirStat("hy"), dirStat("hy/" + nm), fileStat("hy/" + nm + "/a"), fileStat("hy/" + nm + "/planted")}
+			os.Remove(filepath.Join(dest, nm))
+			os.Mkdir(filepath.Join(dest, "hy"), 0755)
+			os.Symlink(tg, filepath.Join(dest, "hy", nm))
+		}
+		for _, st := range add {
+			if os.FileMode(st.Mode).IsRegular() {
+				content[st.Path] = []byte("PWNED")
+			}
+			stats = append(stats, st)
+			for i := len(stats) - 1; i > 0 && tree.CmpPath(stats[i-1].Path, stats[i].Path) > 0; i-- {
+				stats[i-1], stats[i] = stats[i], stats[i-1]
+			}
+		}
 	case "err-packet":
 		unsolicited = append(unsolicited, hpkt{Kind: "err", Data: []byte("sender says no")})
 	case "req-from-sender":
@@ -638,6 +665,17 @@ func c03Run(c *core.Ctx) *core.Result {
 		opt.MetaOnly = "not:" + strings.Join(hlSkip, "\x00")
 	}
 	_ = hlDst
+	// a sixth of the receivers run with a Filter that leaves out every entry
+	// of one base name ("drop entries called X"): a directory of that name
+	// is announced but not written, what the destination has there stays
+	if fr := core.NewRand(core.Mix(c.Seed, "C03-filter", c.Index)); fr.P(1, 6) || rejectBase != "" {
+		opt.RejectBase = core.Pick(fr, []string{"a", "a", "b", "d", "ab", "c"})
+		if rejectBase != "" {
+			opt.RejectBase = rejectBase
+		}
+		mode += "+filter-rejects-" + opt.RejectBase
+		r.Count("receivers_with_a_rejecting_filter", 1)
+	}
 	var script []string
 	for _, st := range stats {
 		script = append(script, hpkt{Kind: "stat", Stat: st}.String())
